@@ -435,7 +435,7 @@ def law_sweep(ctx, mc, atm, only=None):
                 D.append(abs(a_ - b_) / abs(a_))
                 evals[0] += 2
             case = {"T0": T0, "kappa": kap, "x0": x0, "a": a, "levels": [N // s + 1 for s in (128, 32, 8, 2)], "rel_difference": D}
-            if not (D[-1] <= 1e-5 and D[-1] <= D[0] / 20 + 1e-9):
+            if not (D[-1] <= 1e-5 and D[-1] <= max(D[:3]) / 20 + 1e-9):
                 bad("integrate_water_vapor:forms-converge", "hydrostatic and general IWV do not approach each other on refined grids: "
                     f"relative differences {D} on {case['levels']} levels", case)
 
